@@ -16,6 +16,7 @@
 (*            ns: the namespace globals resolve in                         *)
 (* Result  R = [v, S, sig]   v: value or NoVal; sig: how evaluation ended  *)
 (*   [k|->"ok"] | [k|->"exit"] (exitWith) | [k|->"break",name] | [k|->"throw"]*)
+(*   | [k|->"casehit"] (a case matched: leave the scope executing it)      *)
 (*   | [k|->"err"]; for exit/break/throw v carries the value handed over   *)
 (***************************************************************************)
 EXTENDS Integers, Sequences, FiniteSets, TLC
@@ -86,17 +87,19 @@ RECURSIVE Block(_, _, _)
 RECURSIVE WhileLoop(_, _, _, _)
 RECURSIVE ForLoop(_, _, _, _, _, _, _)
 RECURSIVE EachLoop(_, _, _, _, _, _, _)
-RECURSIVE SwitchBody(_, _, _, _)
 
 \* a block executed as a new scope: Block(stmts, S, vars)
 \*   - the scope's bindings disappear when it ends
 \*   - exitWith inside leaves exactly this scope; breakOut leaves it if it carries the name
+\* signals that leave exactly the scope they are raised in: exitWith, and a matching `case x: {..}`
+\* (the frame executing the case statement is left; the switch runs the chosen code when its body is done)
+Leaves(sig) == sig.k \in {"exit", "casehit"}
 Block(stmts, S, vars) ==
     LET S1 == PushFrame(S, vars, InheritNs(S))
         r == Exec(stmts, 1, S1, NoVal)
         named == Top(r.S).name
         S2 == PopFrame(r.S)
-    IN IF r.sig.k = "exit" THEN R(Val(r.v), S2, Ok)
+    IN IF Leaves(r.sig) THEN R(Val(r.v), S2, Ok)
        ELSE IF r.sig.k = "break" /\ r.sig.name = named /\ named # "" THEN R(Val(r.v), S2, Ok)
        ELSE IF IsOk(r) THEN R(Val(r.v), S2, Ok)
        ELSE R(r.v, S2, r.sig)
@@ -153,19 +156,25 @@ Eval(e, S) ==
              IF Len(a.v.a) = 0 THEN R((IF e.k = "fcount" THEN Num(0) ELSE IF e.k = "ffindif" THEN Num(-1) ELSE ArrV(<<>>)), a.S, Ok)
              ELSE LET S0 == PushFrame(a.S, Empty, InheritNs(a.S))
                       f == EachLoop(e.k, e.body, a.v.a, 1, S0, (IF e.k = "fcount" THEN Num(0) ELSE IF e.k = "ffindif" THEN Num(-1) ELSE ArrV(<<>>)), FALSE)
-                  IN IF IsOk(f) \/ f.sig.k = "exit" THEN R(Val(f.v), PopFrame(f.S), Ok)
+                  IN IF IsOk(f) \/ Leaves(f.sig) THEN R(Val(f.v), PopFrame(f.S), Ok)
                      ELSE IF f.sig.k = "break" /\ Top(f.S).name = f.sig.name /\ f.sig.name # "" THEN R(Val(f.v), PopFrame(f.S), Ok)
                      ELSE R(f.v, PopFrame(f.S), f.sig))
       [] e.k = "switch" ->
+            \* the body is an ordinary block; case / default statements executed anywhere in its dynamic extent
+            \* act on the innermost switch record (S.sw); the chosen code runs in the switch scope afterwards
             (LET v == Eval(e.v, S) IN IF ~IsOk(v) THEN v ELSE
              LET S1 == PushFrame(v.S, Empty, InheritNs(v.S))
-                 b == SwitchBody(e.body, 1, S1, [val |-> v.v, now |-> FALSE, has |-> FALSE, target |-> <<>>, set |-> FALSE])
-             IN IF ~IsOk(b.r) THEN
-                     (IF b.r.sig.k = "exit" THEN R(Val(b.r.v), PopFrame(b.r.S), Ok) ELSE R(b.r.v, PopFrame(b.r.S), b.r.sig))
-                ELSE IF b.sw.set THEN
-                     (LET t == Exec(b.sw.target, 1, b.r.S, NoVal) IN
-                      IF IsOk(t) \/ t.sig.k = "exit" THEN R(Val(t.v), PopFrame(t.S), Ok) ELSE R(t.v, PopFrame(t.S), t.sig))
-                ELSE R(Nil, PopFrame(b.r.S), Ok))
+                 S1s == [S1 EXCEPT !.sw = Append(S1.sw, [val |-> v.v, now |-> FALSE, has |-> FALSE, target |-> <<>>, set |-> FALSE])]
+                 b == Exec(e.body, 1, S1s, NoVal)
+                 n == Len(b.S.sw)
+                 rec == b.S.sw[n]
+                 Sp == [b.S EXCEPT !.sw = SubSeq(b.S.sw, 1, n - 1)]
+             IN IF ~IsOk(b) /\ b.sig.k # "casehit" THEN
+                     (IF b.sig.k = "exit" THEN R(Val(b.v), PopFrame(Sp), Ok) ELSE R(b.v, PopFrame(Sp), b.sig))
+                ELSE IF rec.set THEN
+                     (LET t == Exec(rec.target, 1, Sp, NoVal) IN
+                      IF IsOk(t) \/ Leaves(t.sig) THEN R(Val(t.v), PopFrame(t.S), Ok) ELSE R(t.v, PopFrame(t.S), t.sig))
+                ELSE R(Nil, PopFrame(Sp), Ok))
       [] e.k = "try" ->
             (LET S1 == PushFrame(S, Empty, InheritNs(S))
                  b == Exec(e.body, 1, S1, NoVal)
@@ -173,8 +182,8 @@ Eval(e, S) ==
                      (LET S2 == [b.S EXCEPT !.frames = SubSeq(b.S.frames, 1, Len(S1.frames))]     \* back in the try scope, bindings cleared
                           S3 == [S2 EXCEPT !.frames[Len(S2.frames)].vars = Put(Empty, "_exception", b.v)]
                           h == Exec(e.handler, 1, S3, NoVal)
-                      IN IF IsOk(h) \/ h.sig.k = "exit" THEN R(Val(h.v), PopFrame(h.S), Ok) ELSE R(h.v, PopFrame(h.S), h.sig))
-                ELSE IF IsOk(b) \/ b.sig.k = "exit" THEN R(Val(b.v), PopFrame(b.S), Ok)
+                      IN IF IsOk(h) \/ Leaves(h.sig) THEN R(Val(h.v), PopFrame(h.S), Ok) ELSE R(h.v, PopFrame(h.S), h.sig))
+                ELSE IF IsOk(b) \/ Leaves(b.sig) THEN R(Val(b.v), PopFrame(b.S), Ok)
                 ELSE R(b.v, PopFrame(b.S), b.sig))
       [] e.k = "isnilc" -> (LET b == Block(e.body, S, Empty) IN IF ~IsOk(b) THEN b ELSE R(Bool(b.v.t = "nil"), b.S, Ok))
       [] e.k = "getvar" -> R(GetGlobal(S, e.ns, e.ln), S, Ok)            \* ns getVariable "name"
@@ -183,7 +192,7 @@ Eval(e, S) ==
       [] e.k = "within" ->      \* with ns do {..}: a new scope resolving globals in ns
             (LET S1 == PushFrame(S, Empty, e.ns)
                  b == Exec(e.body, 1, S1, NoVal)
-             IN IF IsOk(b) \/ b.sig.k = "exit" THEN R(Val(b.v), PopFrame(b.S), Ok) ELSE R(b.v, PopFrame(b.S), b.sig))
+             IN IF IsOk(b) \/ Leaves(b.sig) THEN R(Val(b.v), PopFrame(b.S), Ok) ELSE R(b.v, PopFrame(b.S), b.sig))
 
 \* iteration of count / select / apply / findIf: ONE scope for the construct (an early exit ends the
 \* whole construct), its bindings cleared for every element
@@ -199,23 +208,6 @@ EachLoop(kind, body, elems, i, S, acc, stop) ==
                 [] kind = "ffindif" -> (IF IsTrue(bv) THEN R(Num(i - 1), b.S, Ok) ELSE EachLoop(kind, body, elems, i + 1, b.S, acc, FALSE))
 
 \* switch body: statements in order; `case x` arms, `case x: {c}` selects when armed, default selects provisionally
-SwitchBody(stmts, i, S, sw) ==
-    IF i > Len(stmts) THEN [r |-> R(NoVal, S, Ok), sw |-> sw]
-    ELSE LET s == stmts[i] IN
-         IF s.k = "case" THEN
-              (LET x == Eval(s.x, S) IN
-               IF ~IsOk(x) THEN [r |-> x, sw |-> sw]
-               ELSE LET now == sw.now \/ x.v = sw.val IN
-                    IF s.hasbody /\ ~sw.has /\ now /\ Mut = "switch-last-match"
-                    THEN SwitchBody(stmts, i + 1, x.S, [sw EXCEPT !.target = s.body, !.set = TRUE, !.now = FALSE])
-                    ELSE IF s.hasbody /\ ~sw.has /\ now
-                    THEN [r |-> R(NoVal, x.S, Ok), sw |-> [sw EXCEPT !.target = s.body, !.set = TRUE, !.has = TRUE, !.now = FALSE]]   \* first match wins, rest skipped
-                    ELSE SwitchBody(stmts, i + 1, x.S, [sw EXCEPT !.now = IF s.hasbody THEN (IF sw.has THEN now ELSE FALSE) ELSE now]))
-         ELSE IF s.k = "default" THEN
-              SwitchBody(stmts, i + 1, S, IF sw.has THEN sw ELSE [sw EXCEPT !.target = s.body, !.set = TRUE])
-         ELSE LET r == Exec(<<s>>, 1, S, NoVal) IN
-              IF ~IsOk(r) THEN [r |-> r, sw |-> sw] ELSE SwitchBody(stmts, i + 1, r.S, sw)
-
 WhileLoop(cond, body, S, fuel) ==
     IF fuel = 0 THEN R(Nil, S, [k |-> "err"])
     ELSE LET S1 == [S EXCEPT !.frames[Len(S.frames)].vars = Empty]          \* each pass in a cleared scope
@@ -266,7 +258,7 @@ Exec(stmts, i, S, last) ==
       [] s.k = "while" ->
             (LET S1 == PushFrame(S, Empty, InheritNs(S))
                  w == WhileLoop(s.c, s.body, S1, LoopFuel)
-             IN IF IsOk(w) \/ w.sig.k = "exit" THEN Exec(stmts, i + 1, PopFrame(w.S), Val(w.v))
+             IN IF IsOk(w) \/ Leaves(w.sig) THEN Exec(stmts, i + 1, PopFrame(w.S), Val(w.v))
                 ELSE IF w.sig.k = "break" /\ Top(w.S).name = w.sig.name /\ w.sig.name # "" THEN Exec(stmts, i + 1, PopFrame(w.S), Val(w.v))
                 ELSE R(w.v, PopFrame(w.S), w.sig))
       [] s.k = "for" ->
@@ -276,7 +268,7 @@ Exec(stmts, i, S, last) ==
              IF (step > 0 /\ fr.v.n > to.v.n) \/ (step < 0 /\ fr.v.n < to.v.n) THEN Exec(stmts, i + 1, to.S, Nil)      \* empty range: no pass
              ELSE LET S1 == PushFrame(to.S, Empty, InheritNs(to.S))
                       f == ForLoop(s.ln, fr.v.n, to.v.n, step, s.body, S1, LoopFuel)
-                  IN IF IsOk(f) \/ f.sig.k = "exit" THEN Exec(stmts, i + 1, PopFrame(f.S), Val(f.v))
+                  IN IF IsOk(f) \/ Leaves(f.sig) THEN Exec(stmts, i + 1, PopFrame(f.S), Val(f.v))
                      ELSE R(f.v, PopFrame(f.S), f.sig))
       [] s.k = "foreach" ->
             (LET a == Eval(s.arr, S) IN IF ~IsOk(a) THEN a ELSE
@@ -289,7 +281,7 @@ Exec(stmts, i, S, last) ==
                  S0 == PushFrame(a.S, Empty, InheritNs(a.S))
                  f == each(1, S0, NoVal)
              IN IF Len(a.v.a) = 0 THEN Exec(stmts, i + 1, a.S, Nil)
-                ELSE IF IsOk(f) \/ f.sig.k = "exit" THEN Exec(stmts, i + 1, PopFrame(f.S), Val(f.v))
+                ELSE IF IsOk(f) \/ Leaves(f.sig) THEN Exec(stmts, i + 1, PopFrame(f.S), Val(f.v))
                 ELSE IF f.sig.k = "break" /\ Top(f.S).name = f.sig.name /\ f.sig.name # "" THEN Exec(stmts, i + 1, PopFrame(f.S), Val(f.v))
                 ELSE R(f.v, PopFrame(f.S), f.sig))
       [] s.k = "scopename" ->
@@ -299,13 +291,27 @@ Exec(stmts, i, S, last) ==
              ELSE R(Nil, S, [k |-> "break", name |-> s.s]))
       [] s.k = "throw" ->
             (LET x == Eval(s.x, S) IN IF ~IsOk(x) THEN x ELSE R(x.v, x.S, [k |-> "throw"]))
+      [] s.k = "case" ->       \* case x; (fall-through)   case x: {body}
+            (LET x == Eval(s.x, S) IN IF ~IsOk(x) THEN x ELSE
+             LET n == Len(x.S.sw)
+                 sw == x.S.sw[n]
+                 now == sw.now \/ x.v = sw.val
+             IN IF s.hasbody /\ ~sw.has /\ now /\ Mut = "switch-last-match"
+                THEN Exec(stmts, i + 1, [x.S EXCEPT !.sw[n] = [sw EXCEPT !.target = s.body, !.set = TRUE, !.now = FALSE]], Nil)
+                ELSE IF s.hasbody /\ ~sw.has /\ now       \* first match wins: the rest of this block is skipped
+                THEN R(Nil, [x.S EXCEPT !.sw[n] = [sw EXCEPT !.target = s.body, !.set = TRUE, !.has = TRUE, !.now = FALSE]], [k |-> "casehit"])
+                ELSE Exec(stmts, i + 1, [x.S EXCEPT !.sw[n] = [sw EXCEPT !.now = now]], Nil))
+      [] s.k = "default" ->
+            (LET n == Len(S.sw)
+                 sw == S.sw[n]
+             IN Exec(stmts, i + 1, IF sw.has THEN S ELSE [S EXCEPT !.sw[n] = [sw EXCEPT !.target = s.body, !.set = TRUE]], Nil))
       [] s.k = "setvar" ->     \* ns setVariable ["name", value]
             (LET x == Eval(s.x, S) IN IF ~IsOk(x) THEN x ELSE Exec(stmts, i + 1, SetGlobal(x.S, s.ns, s.ln, x.v), Nil))
       [] s.k = "spawn" ->      \* code started with spawn sees none of the starter's locals; it runs after the starter here
             Exec(stmts, i + 1, [S EXCEPT !.pending = Append(S.pending, s.body)], [t |-> "h"])
 
 RootFrames == << [vars |-> Empty, name |-> "", ns |-> "mission"] >>
-InitS == [log |-> <<>>, glob |-> [ns \in {"mission", "ui", "parsing", "profile"} |-> Empty], frames |-> RootFrames, pending |-> <<>>]
+InitS == [log |-> <<>>, glob |-> [ns \in {"mission", "ui", "parsing", "profile"} |-> Empty], frames |-> RootFrames, pending |-> <<>>, sw |-> <<>>]
 
 \* scripts started with spawn: each runs in a scope chain of its own (none of the starter's locals)
 RECURSIVE RunPending(_, _)
